@@ -236,6 +236,14 @@ func C01(tier string) int {
 		o.Fault = "write"
 		ops2 = append(ops2, o)
 	}
+	// An entry directly behind another key's entry with the same target and a lower source (what is recorded for one
+	// entry must not borrow from its neighbour), and the vote that would surround it.
+	ops2 = append(ops2,
+		SOp{Kind: "atts", Ents: []Ent{{Key: 1, S: 0, T: 2, Root: 1}, {Key: 0, S: 1, T: 2, Root: 1}}},
+		SOp{Kind: "atts", Ents: []Ent{{Key: 0, ByKey: true, S: 0, T: 2, Root: 1}, {Key: 1, ByKey: true, S: 1, T: 2, Root: 1}}},
+		SOp{Kind: "att", Ents: []Ent{{Key: 0, S: 0, T: 3, Root: 2}}},
+		SOp{Kind: "att", Ents: []Ent{{Key: 1, S: 0, T: 3, Root: 2}}},
+	)
 	// Served while reads of the store fail (all of them; for batches also: those of the first or the last entry's key only).
 	for _, o := range attSingles(0, []uint64{0, 1, 2}, false) {
 		if !o.Ents[0].ByKey {
